@@ -384,6 +384,12 @@ def run(pid, tier, replay=None):
     chk.assumptions += ["liveness in bounded form: convergence is judged at states reached by fair quiescent rounds that have stopped changing anything (a fixpoint of fair rounds that is "
                         "not converged never converges)", "in-memory FIFO links, shared virtual clock; random.choice of the fetch step is dictated by the schedule"]
     chk.mark("hooked integration tests")
+    # ---- a message "sent" is what is "in flight" only if the connection's send side writes exactly the queued frames: SendPath
+    from checks import sendpath
+    rc = sendpath.stage_seq(chk, quick, rng, pid)
+    if rc:
+        return rc
+    chk.mark("send path (partial writes)")
     return chk.finish()
 
 
